@@ -54,3 +54,7 @@ Proof.
   unfold mx_oracle_output. destruct (mx_parse_check_output output) as [t p]. cbn.
   rewrite !mx_beq_refl, mx_list_beq_refl. reflexivity.
 Qed.
+
+Lemma mx_oracle_timeout_accepts evs s e m :
+  mx_timeout_observe evs = Some (s, e, m) -> mx_oracle_timeout evs s e m = None.
+Proof. intros H. unfold mx_oracle_timeout. rewrite H, !Z.eqb_refl, Bool.eqb_reflx. reflexivity. Qed.
